@@ -17,7 +17,7 @@ open WinTree (Id Win Req Change Tree)
 /-- The same state under another tally of the library's own references, the terminal object replaced. -/
 theorem SInv.reghost {gh gh' : Ghost} {st : St} (inv : SInv gh st) (tm : Obj)
     (hw : ∀ (i : Nat) (w : Win), LiveW st.tree i w → w.refcount ≤ ((getX st i).appRefs : Int) + (gh'.win i : Int) ∧
-      (i = 0 → ((getX st i).appRefs : Int) + (gh'.win i : Int) ≤ w.refcount))
+      (gh'.covers i → ((getX st i).appRefs : Int) + (gh'.win i : Int) ≤ w.refcount))
     (hgl : 0 < gh'.win 0 → ∃ r, LiveW st.tree 0 r)
     (h1 : tm.freed = false → (∃ r, LiveW st.tree 0 r) → tm.refcount = (tm.appRefs : Int) + (gh'.term : Int) + 1)
     (h2 : tm.freed = false → (¬ ∃ r, LiveW st.tree 0 r) → tm.refcount = (tm.appRefs : Int) + (gh'.term : Int) ∧ 1 ≤ tm.refcount)
@@ -69,7 +69,7 @@ theorem termUnref_ghost {gh : Ghost} {st : St} (inv : SInv gh.addTerm st) :
   · unfold termUnref
     have hge : ¬ st.term.refcount < 1 := by omega
     simp only [hf, Bool.false_eq_true, if_false, hge, pure_ok]
-  · refine inv.reghost (gh' := gh) _ (fun i w hl => by have := inv.wref i w hl; simpa using this) inv.glive ?_ ?_ ?_
+  · refine inv.reghost (gh' := gh) _ (fun i w hl => inv.wref i w hl) inv.glive ?_ ?_ ?_
     · intro _ hr
       have := inv.term_held hf (.inl hr)
       simp only [Ghost.addTerm_term] at this
@@ -98,7 +98,7 @@ theorem termUnref_ghost {gh : Ghost} {st : St} (inv : SInv gh.addTerm st) :
 theorem SInv.set_refcount {gh gh' : Ghost} {st : St} (inv : SInv gh st) {win : Nat} {ww : Win} (hw : LiveW st.tree win ww)
     (r : Int) (hterm : gh'.term = gh.term) (hoth : ∀ j, j ≠ win → gh'.win j = gh.win j)
     (hup : r ≤ ((getX st win).appRefs : Int) + (gh'.win win : Int) ∧
-      (win = 0 → ((getX st win).appRefs : Int) + (gh'.win win : Int) ≤ r)) (hlo : 1 ≤ r) :
+      (gh'.covers win → ((getX st win).appRefs : Int) + (gh'.win win : Int) ≤ r)) (hlo : 1 ≤ r) :
     SInv gh' (setW st win { ww with refcount := r }) := by
   obtain ⟨inv', hrel⟩ := inv.tinv.set_refcount hw r
   have hl0 : LiveW (WinTree.set st.tree win { ww with refcount := r }) win { ww with refcount := r } :=
@@ -127,8 +127,10 @@ theorem SInv.set_refcount {gh gh' : Ghost} {st : St} (inv : SInv gh st) {win : N
     · subst hi
       have := LiveW.unique hl'' hl0; subst this
       exact hup
-    · rw [hoth i (Ne.symm hi)]
-      exact inv.wref i w' ⟨by rw [← set_get_ne _ hi]; exact hl''.1, hl''.2⟩
+    · have h1 := inv.wref i w' ⟨by rw [← set_get_ne _ hi]; exact hl''.1, hl''.2⟩
+      unfold Ghost.covers at h1 ⊢
+      rw [hoth i (Ne.symm hi)]
+      exact h1
 
 /-- A window nobody but the state's own tallies knows: the library's tally on a window that is not alive is void. -/
 theorem SInv.reghost_win {gh gh' : Ghost} {st : St} (inv : SInv gh st) (hterm : gh'.term = gh.term)
@@ -136,6 +138,7 @@ theorem SInv.reghost_win {gh gh' : Ghost} {st : St} (inv : SInv gh st) (hterm : 
     (hgl : 0 < gh'.win 0 → ∃ r, LiveW st.tree 0 r) : SInv gh' st := by
   have := inv.reghost (gh' := gh') st.term (fun i w hl => by
       have h1 := inv.wref i w hl
+      unfold Ghost.covers at h1 ⊢
       rw [hwin i w hl]
       exact h1) hgl
     (fun hf hr => by rw [hterm]; exact inv.term_held hf (.inl hr))
@@ -168,7 +171,7 @@ theorem setX_setX_getX (st : St) (i : Nat) (a : WinX) : setX (setX st i a) i (ge
     window): as `unrefW_ok`, the tally that goes down being the library's. -/
 theorem unrefW_ghost {cfg : Cfg} (R : Repaired cfg) {gh gh' : Ghost} {st : St} (inv : SInv gh st) {x : Nat} {ww : Win}
     (hl : LiveW st.tree x ww) (hterm : gh'.term = gh.term) (hx : gh'.win x + 1 = gh.win x)
-    (hoth : ∀ j, j ≠ x → gh'.win j = gh.win j) :
+    (hoth : ∀ j, j ≠ x → gh'.win j = gh.win j) (hcx : gh'.covers x → gh.covers x) :
     ∃ st', unrefW cfg st x = .ok st' ∧ SInv gh' st' ∧ st'.tree.wins.size = st.tree.wins.size ∧
       (∀ (i : Nat) (w : Win), st.tree.wins[i]? = some w → w.freed = true →
         ∃ w', st'.tree.wins[i]? = some w' ∧ w'.freed = true) ∧
@@ -198,10 +201,11 @@ theorem unrefW_ghost {cfg : Cfg} (R : Repaired cfg) {gh gh' : Ghost} {st : St} (
         · show w.refcount ≤ (((getX st x).appRefs + 1 : Nat) : Int) + (gh'.win x : Int)
           omega
         · show (((getX st x).appRefs + 1 : Nat) : Int) + (gh'.win x : Int) ≤ w.refcount
-          have := h1.2 h0
+          have := h1.2 (hcx h0)
           omega
       · rename_i h
         have hne : i ≠ x := fun e => h ⟨e.symm, hxlt⟩
+        unfold Ghost.covers at h1 ⊢
         rw [hoth i hne]; exact h1
   have hh : heldW (setX st x xp) x = true := by
     unfold heldW
@@ -1265,7 +1269,7 @@ theorem instDestroy_ok {tc : TCfg} (R : Repaired tc.base) (hrf : tc.rootForgetsT
   · rw [if_pos hr]
     obtain ⟨r, hrl⟩ := rootAlive_live hr
     obtain ⟨st1, hu, inv1, hsz1, hfr1, hmono1⟩ := unrefW_ghost R (gh' := Ghost.none.addTerm) F.inv hrl rfl rfl
-      (fun j hj => by simp [instGhost, hj])
+      (fun j hj => by simp [instGhost, hj]) (fun _ => .inl rfl)
     simp only [hu, bind_ok]
     obtain ⟨F1, R1, _⟩ := sync_ok (top := { top with st := st1, dangling := rootAlive st1 && !tc.rootForgetsTickit }) inv1
       (unrefW_keeps F.keep hu) F.ids
